@@ -74,6 +74,8 @@ pub enum Op {
     /// the receiving application takes buffers out of the decapsulator with its public `new_pdu` until it
     /// reports that none is left, then provisions them all again
     AppDrain,
+    /// the next fragmented PDU takes the fragment id of the previous one (a restart on the same id)
+    SameId,
 }
 
 pub fn op_str(op: &Op) -> String {
@@ -87,6 +89,7 @@ pub fn op_str(op: &Op) -> String {
         Op::EnableMax(n) => format!("enable_max({})", n),
         Op::Accessors => "set_crc_calculator/get_crc_calculator/is_enabled_re_use_label".into(),
         Op::AppDrain => "receiver: new_pdu until empty, provision all again".into(),
+        Op::SameId => "next PDU on the previous fragment id".into(),
     }
 }
 
@@ -151,6 +154,7 @@ pub fn alphabet_c04() -> Vec<Op> {
     v.push(Op::Enc { label: 1, outcome: Outcome::BadFinalExt, ext: true });
     v.push(Op::Enc { label: 2, outcome: Outcome::SignallingPlain, ext: false });
     v.push(Op::AppDrain);
+    v.push(Op::SameId);
     v.extend([Op::Cont, Op::ContStale, Op::Reset, Op::Disable, Op::Enable, Op::EnableMax(0), Op::EnableMax(1), Op::EnableMax(2), Op::Accessors]);
     v
 }
@@ -287,6 +291,10 @@ impl Exec {
                 self.max_n = *n;
                 true
             }
+            Op::SameId => {
+                self.next_id = self.next_id.wrapping_sub(1);
+                true
+            }
             Op::AppDrain => {
                 if let Some(d) = &mut self.dec {
                     let mut taken = Vec::new();
@@ -364,7 +372,9 @@ impl Exec {
             Op::Enc { label, outcome, ext } => {
                 let l = LABELS[*label as usize];
                 self.seq += 1;
-                let small: Vec<u8> = (0..40u8).map(|i| i.wrapping_mul(3).wrapping_add(self.seq as u8)).collect();
+                // only two different PDU contents: two PDUs of a history often have the same bytes, so that a fragment
+                // attached to the wrong reassembly still passes the length and CRC checks and the mis-attribution shows
+                let small: Vec<u8> = (0..40u8).map(|i| i.wrapping_mul(3).wrapping_add((self.seq % 2) as u8)).collect();
                 let (pdu, blen, ptype): (Vec<u8>, usize, u16) = match outcome {
                     Outcome::Fits => (small[..20].to_vec(), 64, 0x0800),
                     Outcome::Fragments => (small.clone(), 24, 0x0800),
@@ -378,8 +388,8 @@ impl Exec {
                     Outcome::TooLongByLabel => (LONG_PDU.with(|p| p[..65534 - label_bytes(&l).len()].to_vec()), 64, 0x0800),
                     Outcome::BadFinalExt => (small[..20].to_vec(), 64, 0x0043),
                 };
-                // fragment ids 0..=7 on a 4-slot receiver: ids 4 apart share a slot
-                let frag_id = self.next_id % 8;
+                // fragment ids cycle through 0..=3; every fifth train takes the id 4 higher, which shares the slot (4-slot receiver)
+                let frag_id = if self.next_id % 5 == 4 { self.next_id % 4 + 4 } else { self.next_id % 4 };
                 let mut buf = vec![0u8; blen];
                 let meta = EncapMetadata::new(ptype, l);
                 let r = if *outcome == Outcome::BadFinalExt {
@@ -574,6 +584,7 @@ pub fn random_op(rng: &mut Rng, with_fail_kinds: bool) -> Op {
         6 => Op::ContStale,
         7 => Op::Accessors,
         8 => Op::AppDrain,
+        9 => Op::SameId,
         _ => {
             let label = [0u8, 0, 1, 2, 2, 3, 4, 5, 0, 2, 7, 8, 8][rng.below(13)];
             let outcome = match rng.below(if with_fail_kinds { 14 } else { 11 }) {
